@@ -1194,3 +1194,41 @@ def copy_scalar_fields(chk, repo, rid, class_quals, floor=1):
             chk.ob(rid, f"{ci.node.name}.copy passes {fld}=self.{fld}", repo.loc(cp, ctor[0]), ok,
                    f"copy() hands `{fld}` on as `{unparse(e) if e is not None else '<default>'}` instead of self.{fld}: the copy differs from the node it was made from",
                    key=f"{cp.qual}::field::{fld}", fn=cp.qual)
+
+
+def converted_per_line(chk, repo, rid, qual, conv='convert_to_variant_record', floor=1):
+    """R-FRESH: in a parser CLI the record filed for an input line is the conversion of THAT line.  Instances = the loops of the
+    function whose body calls <loop variable>.<conv>(...).  Obligation (bounded iteration paths): every iteration that files
+    something (append / add / extend on a collection, or an item store) has executed <loop variable>.<conv>(...) - no iteration
+    files a value taken from an earlier line (memo keyed on part of the record)."""
+    from sa.cfg import CFG, iteration_paths
+    chk.rule(rid, f"R-FRESH: every record filed by an iteration comes from {conv}() of that iteration's own input record", floor)
+    f = repo.func(qual)
+    chk.uses(f)
+    cfg = CFG(f.node)
+    n_inst = 0
+    for lp in [l for l in ast.walk(f.node) if isinstance(l, ast.For) and isinstance(l.target, ast.Name)]:
+        tg = lp.target.id
+        convs = [c for c in ast.walk(lp) if isinstance(c, ast.Call) and call_name(c) == conv and isinstance(c.func, ast.Attribute) and unparse(c.func.value) == tg]
+        if not convs:
+            continue
+        n_inst += 1
+        conv_stmts = {id(repo.enclosing_stmt(c)) for c in convs}
+        inner = [l2 for l2 in ast.walk(lp) if isinstance(l2, (ast.For, ast.While)) and l2 is not lp]
+        bad = None
+        n_p = 0
+        for pth in iteration_paths(cfg, lp, max_paths=4000):
+            if pth.end_kind() not in ('back', 'continue'):
+                continue
+            n_p += 1
+            nodes = [n for n in pth.nodes() if n.kind == 'stmt']
+            files = [n for n in nodes if isinstance(n.ast, ast.Expr) and isinstance(n.ast.value, ast.Call) and call_name(n.ast.value) in ('append', 'add', 'extend')
+                     and n.ast.value.args and not isinstance(n.ast.value.args[0], (ast.Constant, ast.List, ast.Dict, ast.Set, ast.Tuple))]
+            if files and not any(id(n.ast) in conv_stmts for n in nodes):
+                bad = bad or pth
+        chk.paths += n_p
+        chk.ob(rid, f"{f.name}: an iteration of `for {tg} in ...` that files a record has converted {tg}", repo.loc(f, lp), n_p > 0 and bad is None,
+               f"an iteration files a record without calling {tg}.{conv}(): the value comes from an earlier line (per-transcript checks of the conversion are skipped)",
+               key=f"{f.qual}::{tg}::converted-per-line", path=bad.describe(f.module.relpath) if bad else None, fn=f.qual)
+    if not n_inst:
+        chk.undecided(rid, f"{f.name}: conversion loop", f.where, f"no loop calling <loop variable>.{conv}() found", key=f"{f.qual}::converted-per-line", fn=f.qual)
